@@ -11,7 +11,7 @@ META = dict(
     explanation='Each sequence operator is run (real code) on N symbolic items, each an arbitrary integer or None, per key under with_memory_store (root key, and for the stateful ones under group_by with two solver-interleaved keys) and on a plain observable where it supports one, '
                 'and the emitted list is compared with the list definition of the property statement, written directly on Python lists: first/last/take(n); distinct = first occurrences; '
                 'distinct_until_changed = heads of runs (with and without key_mapper); lag(n) = (items[max(0,i-n)], items[i]); pad_start / pad_end / start_with padding around a non-empty sequence; '
-                'batch(n) = chunks of exactly n plus one non-empty remainder, concatenation = input; sort = stable ordered permutation. One obligation per operator x mode x length x parameter value.',
+                'batch(n) = chunks of exactly n plus one non-empty remainder, concatenation = input; sort = stable ordered permutation. One obligation per operator x mode x length x parameter value; the stateful ones also after an aborted first subscription of the same operator objects (retry) and on a second clean subscription.',
     bounds=dict(quick='N <= 5 items (int or None; distinct: ints in 0..2 because the real code hashes them), take n in 0..N+1, lag 1..3, batch 1..N+1, pad size 0..2 value None/explicit; sort N <= 3',
                 thorough='N <= 7 (sort N <= 4, distinct N <= 5)'),
     outside='N above the bound; key mappers that raise; unhashable items for distinct',
@@ -77,12 +77,17 @@ def seqop(p):
     def body(a):
         items = list(a)
         ops = fac(arg)
-        got = D.run_mux(items, ops) if mode == 'mux' else D.run_plain(items, ops)
-        got = [list(x) if op == 'batch' else x for x in got]
+        pipe_op = rs.state.with_memory_store(list(ops)) if mode == 'mux' else rx.pipe(*ops)
         exp = oracle(items, arg)
-        if got == exp:
-            return True
-        return fail(op=op, arg=arg, mode=mode, items=items, observed=got, expected=exp)
+        if p.get('resub') and items:
+            D.abort_first(pipe_op, items[:p['resub']])     # the same operator objects first serve a subscription that fails mid-way
+        for sub in ((1, 2) if p.get('resub') else (1,)):
+            got = []
+            D.src(items).pipe(pipe_op).subscribe(on_next=got.append, on_error=lambda e: got.append(('ERR', type(e).__name__)))
+            got = [list(x) if op == 'batch' else x for x in got]
+            if got != exp:
+                return fail(op=op, arg=arg, mode=mode, subscription=sub, aborted_first=p.get('resub'), items=items, observed=got, expected=exp)
+        return True
     return mk('seq_' + op, sig, pre, body)
 
 
@@ -175,6 +180,14 @@ def obligations(tier, seed):
                 add('pad_end', n, 'mux', [size, val])
         add('start_with', n, 'mux', [5, 6])
         add('start_with', n, 'mux', [])
+    for op, arg in (('duc', None), ('batch', 2), ('batch', 3), ('take', 2), ('first', None), ('last', None), ('lag', 2), ('pad_end', [1, None]), ('start_with', [5, 6]), ('distinct', None)):
+        for mode in ('mux', 'plain'):
+            _, _, plain_ok, nonempty = OPS[op]
+            if mode == 'plain' and not plain_ok:
+                continue
+            for k in (1, 2):
+                obs.append(Ob(PROP, 'seqop', dict(op=op, n=3, mode=mode, arg=arg, resub=k), budget=b, group='seqop_resubscribed:' + op,
+                              bound=dict(items=3, mode=mode, arg=arg, history='aborted subscription after %d items, then two clean subscriptions of the same operator objects' % k)))
     ng = 4 if q else 5
     for op, arg in (('first', None), ('last', None), ('take', 1), ('take', 2), ('distinct', None), ('duc', None), ('lag', 1), ('lag', 2), ('lag', 3), ('pad_start', [1, None]), ('pad_end', [2, None]),
                     ('pad_end', [1, 7]), ('start_with', [5, 6]), ('batch', 2), ('batch', 3)):
